@@ -27,6 +27,7 @@ type Env struct {
 	closed  bool // the result must be a closed term over bound variables (spec func body, quantifier body)
 	localsOK bool // local variables (latest tracked value) may be named (helper clauses labelled local-...)
 	tparams  map[string]types.Type // type parameter name -> type argument (contracts of generic functions)
+	assuming bool                  // the clause is being assumed (not checked): private(x) registers
 }
 
 var (
@@ -566,6 +567,46 @@ func (env *Env) call(n *ast.CallExpr) *Val {
 			t := env.evalType(n.Args[1])
 			_, ub, _ := e.boxFuncs(t)
 			return &Val{T: sx(ub, v.T), Ty: t}
+		case "private":
+			// private(x): the slice/map/pointer x refers to an object that is
+			// still private to the verified function (engine-level fact, see
+			// private.go).  Checked where an invariant is checked; where an
+			// invariant is assumed (arbitrary iteration) the object is
+			// re-registered as private.
+			v := env.eval(n.Args[0])
+			ref := v.T
+			if _, ok := v.Ty.Underlying().(*types.Slice); ok {
+				ref = sx("sl_reg", v.T)
+			}
+			st := env.sinkOr()
+			if env.assuming {
+				r := e.freshName("private")
+				st.declare(r, "Int")
+				st.define(eq(r, ref))
+				e.markPrivate(st, r)
+				e.notePrivType(r, v.Ty)
+				if id, ok := n.Args[0].(*ast.Ident); ok && env.fr != nil {
+					if tv, ok := env.fr.vars[id.Name]; ok && tv.Addr != nil && tv.Addr.Kind == aPtr && len(tv.Addr.Path) == 0 && st.priv[tv.Addr.Ref] {
+						if st.privClean == nil {
+							st.privClean = map[string]bool{}
+						}
+						st.privClean["holds:"+tv.Addr.Ref] = true
+					}
+				}
+				return &Val{T: "true", Ty: tBool}
+			}
+			if e.isPrivateRef(st, ref) {
+				return &Val{T: "true", Ty: tBool}
+			}
+			// a variable living in a private cell: what was last stored into it
+			if id, ok := n.Args[0].(*ast.Ident); ok && env.fr != nil {
+				if tv, ok := env.fr.vars[id.Name]; ok && tv.Addr != nil && tv.Addr.Kind == aPtr && len(tv.Addr.Path) == 0 {
+					if st.priv[tv.Addr.Ref] && st.privClean["holds:"+tv.Addr.Ref] {
+						return &Val{T: "true", Ty: tBool}
+					}
+				}
+			}
+			return &Val{T: "false", Ty: tBool}
 		case "fst", "snd", "third":
 			// components of a multi-value result
 			v := env.eval(n.Args[0])
